@@ -121,6 +121,20 @@ class _MeshList(list):
         self.ranges = ranges
 
 
+def _same_shape(s1, s2):
+    s1, s2 = tuple(s1), tuple(s2)
+    if len(s1) != len(s2):
+        return False
+    for a, b in zip(s1, s2):
+        if a is b:
+            continue
+        za, zb = zi(a), zi(b)
+        if z3.eq(za, zb) or z3.eq(z3.simplify(za), z3.simplify(zb)):
+            continue
+        return False
+    return True
+
+
 class ArbIndex:
     """an arbitrary in-range flat index (argmax of opaque data)"""
 
@@ -132,7 +146,7 @@ class ArbIndex:
 
     def _unravel(self, shape):
         ex = cur()
-        if tuple(map(str, shape)) != tuple(map(str, self.shape)):
+        if not _same_shape(shape, self.shape):
             raise Unsupported("unravel_index with a shape different from the argmax-ed array")
         out = []
         for a, L in enumerate(self.shape):
